@@ -203,6 +203,12 @@ def build_router(case: dict, trace: Trace, loop: vclock.VLoop, fn_tag: str = "",
             raise AssertionError(f"unknown outcome {o}")
         except asyncio.CancelledError:
             if e.end == "running":
+                if o.get("cleanup"):
+                    # an actor that tidies up when cancelled (execution timeout, forced shutdown): still in progress meanwhile
+                    try:
+                        await asyncio.sleep(o["cleanup"])
+                    except asyncio.CancelledError:
+                        pass
                 leave(e, "cancelled")
             raise
         except BaseException:
